@@ -110,6 +110,15 @@ def elem_kills(x):
 
 
 def fact_killed(fact, kills):
+    import re as _re
+    ks = set(kills)
+    for k in kills:
+        # a store into a member / element modifies the aggregate it belongs to
+        # (`x.f = ..` and `x[i] = ..` change the value x; `p->f = ..` changes the pointee, not p)
+        m = _re.match(r"^([A-Za-z_][A-Za-z_0-9]*)(\.|\[)", k)
+        if m:
+            ks.add(m.group(1))
+    kills = ks
     for opnd in fact[1:]:
         for k in kills:
             if opnd == k or opnd.startswith(k + "->") or opnd.startswith(k + ".") or opnd.startswith(k + "["):
